@@ -22,15 +22,16 @@ fn spec() -> Spec {
         kinds: vec![
             Kind { name: "single_call", quick: 600_000, thorough: 15_000_000, serial: false },
             Kind { name: "trajectory", quick: 2_000, thorough: 60_000, serial: false },
+            Kind { name: "with_shape", quick: 6_000, thorough: 300_000, serial: false },
         ],
-        rule: "single_call: non-degenerate robot (dof 5/6) x pose (FK of q / random SE(3)) x previous in [-2pi,2pi]^6 (generating, shifted by whole turns, uniform) or the CONSTRAINT_CENTERED sentinel x {no limits, wide limits with weight 0 / 1 / random}; inverse_continuing and inverse_continuing_5dof: nearest 2pi-representative per angle, non-decreasing documented cost, superset of plain inverse (same solver), previous-realises-pose => first answer. trajectory: dense joint-space trajectories (sums of sinusoids inside [-2pi,2pi], step <= 0.03 rad/joint, 200..1500 steps, truncated where elbow/shoulder margins < 0.1); each call's previous is the preceding first answer; first answer must track q(t) and its increments. non-trivial = call returned >= 2 answers (single_call) / trajectory of >= 50 tracked steps; distinct = hash(robot, pose/trajectory seed, previous)",
+        rule: "single_call: non-degenerate robot (dof 5/6) x pose (FK of q / random SE(3)) x previous in [-2pi,2pi]^6 (generating, shifted by whole turns, uniform) or the CONSTRAINT_CENTERED sentinel x {no limits, wide limits with weight 0 / 1 / random}; inverse_continuing and inverse_continuing_5dof: nearest 2pi-representative per angle, non-decreasing documented cost, superset of plain inverse (same solver), previous-realises-pose => first answer. trajectory: dense joint-space trajectories (sums of sinusoids inside [-2pi,2pi], step <= 0.03 rad/joint, 200..1500 steps, truncated where elbow/shoulder margins < 0.1); each call's previous is the preceding first answer; first answer must track q(t) and its increments. with_shape: the same clauses (nearest representative, cost order, free legal previous first) through KinematicsWithShape on synthetic cells with obstacles on other IK branches (its collision filter runs on the rayon pool). non-trivial = call returned >= 2 answers (single_call) / trajectory of >= 50 tracked steps; distinct = hash(robot, pose/trajectory seed, previous)",
         assumptions: vec![
             "cost = (1-w)*sum|s-prev| + w*sum|s-centre|, w=0 without limits; prev := constraint centres (zeros without limits) for the sentinel",
             "ties: an angle exactly pi away from previous may take either representative (tolerance 1e-9)",
             "'previous realises the pose => first answer' is evaluated for weight 0 / no limits, previous compliant, and wrist/elbow/shoulder measures >= 1e-3",
             "inside the 0.01 degree wrist band J4/J6 are compared through their model-angle sum (t5~0) or difference (t5~pi)",
         ],
-        minimums: vec![("oracle_evals", 3_000_000, 80_000_000), ("trajectory_steps_tracked", 150_000, 5_000_000), ("pi_crossings_tracked", 500, 20_000)],
+        minimums: vec![("oracle_evals", 3_000_000, 80_000_000), ("trajectory_steps_tracked", 150_000, 5_000_000), ("pi_crossings_tracked", 500, 20_000), ("with_shape.lists_of_three_or_more", 1_000, 50_000), ("with_shape.previous_came_back_first", 1_000, 50_000)],
     }
 }
 
@@ -49,6 +50,8 @@ fn cost(s: &[f64; 6], prev: &[f64; 6], centres: &[f64; 6], w: f64) -> f64 {
 fn run_case(kind: &str, idx: u64, rng: &mut Rng, mon: &mut Mon, _tier: Tier) {
     if kind == "trajectory" {
         trajectory(idx, rng, mon);
+    } else if kind == "with_shape" {
+        with_shape(idx, rng, mon);
     } else {
         single(idx, rng, mon);
     }
@@ -199,6 +202,103 @@ fn single(idx: u64, rng: &mut Rng, mon: &mut Mon) {
     }
     if idx < 2 {
         mon.sample(json!({"kind": "single_call", "robot": robot_json(&robot), "prev": jf(&prev), "weight": w}));
+    }
+}
+
+/// The same contract through the collision-aware robot (its filter runs on the rayon pool): nearest
+/// representative, cost order, and a free previous posture that realises the pose comes back first.
+fn with_shape(idx: u64, rng: &mut Rng, mon: &mut Mon) {
+    use crate::cell::Cell;
+    let mut cell = Cell::generate(rng, idx, true, true, false);
+    let free = cell.build();
+    let mut q = None;
+    for _ in 0..20 {
+        let t = crate::props::c10::gen_posture(rng);
+        let c = cell.robot.rp.from_theta(&t);
+        let c: [f64; 6] = std::array::from_fn(|j| c[j].max(-3.0).min(3.0));
+        if !free.collides(&c) {
+            q = Some(c);
+            break;
+        }
+    }
+    let q = match q {
+        Some(q) => q,
+        None => {
+            mon.inconclusive("with_shape:no-free-posture");
+            return;
+        }
+    };
+    // obstacles on other IK branches of the pose (so that the filter has something to remove)
+    let pose = free.forward(&q);
+    let branches = free.inverse(&pose);
+    let others: Vec<[f64; 6]> = branches.iter().filter(|b| (0..6).any(|j| circ_dist(b[j], q[j]) > 1e-3)).cloned().collect();
+    for _ in 0..rng.usize(3) {
+        if !others.is_empty() {
+            let b = others[rng.usize(others.len())];
+            let (target, gap) = (1 + rng.usize(5), rng.range(-0.03, 0.01));
+            cell.add_designed_obstacle(rng, &b, target, gap);
+        } else {
+            cell.add_random_obstacle(rng);
+        }
+        // the generating posture itself stays free
+        if cell.build().collides(&q) {
+            cell.env.pop();
+        }
+    }
+    let robot = cell.build();
+    let prev_is_q = rng.bool(0.6);
+    let prev = if prev_is_q { q } else { joints_uniform(rng, 3.0) };
+    let centres = cell.constraints.centers;
+    let w = cell.constraints.sorting_weight;
+    let rp = cell.robot.rp;
+    for e in [Entry::Continuing, Entry::Continuing5] {
+        let detail = |what: &str, extra: serde_json::Value| json!({"cell": cell.json(), "entry": e.name(), "q": jf(&q), "prev": jf(&prev), "clause": what, "extra": extra});
+        let sols = match call(&robot, e, &pose, &prev, 0.0) {
+            Ok(s) => s,
+            Err(m) => {
+                mon.violation(&format!("with-shape:panic:{}", e.name()), "continuation entry point of the robot with shape panicked", detail("no-panic", json!({"panic": m})));
+                continue;
+            }
+        };
+        mon.count("with_shape.calls");
+        if sols.len() >= 3 {
+            mon.count("with_shape.lists_of_three_or_more");
+            mon.nontrivial(hash_combine(hash_combine(robot_hash(&cell.robot), hash_f64s(&q)), hash_combine(hash_f64s(&prev), e as u64 + 11)));
+        }
+        let upto = if e == Entry::Continuing5 || rp.dof == 5 { 5 } else { 6 };
+        for s in &sols {
+            if (0..upto).any(|j| (s[j] - prev[j]).abs() > PI + 1e-9) {
+                mon.violation(&format!("with-shape:not-nearest-representative:{}", e.name()), "a returned angle is not the 2pi-representative nearest to the previous angle", detail("nearest", json!({"solution": jf(s)})));
+            } else {
+                mon.held();
+            }
+        }
+        let mut ordered = true;
+        for k in 1..sols.len() {
+            let (c0, c1) = (cost(&sols[k - 1], &prev, &centres, w), cost(&sols[k], &prev, &centres, w));
+            if c0 > c1 + 1e-9 {
+                ordered = false;
+                mon.violation(&format!("with-shape:not-cost-ordered:{}", e.name()), "answers of the robot with shape are not in non-decreasing order of the documented cost", detail("order", json!({"k": k, "cost_before": c0, "cost_after": c1, "answers": sols.iter().map(|s| jf(s)).collect::<Vec<_>>()})));
+                break;
+            }
+        }
+        if ordered {
+            mon.held();
+        }
+        if prev_is_q {
+            let m = sing_measures(&rp, &q);
+            if m.wrist.min(m.elbow).min(m.shoulder) < 1e-2 || !cell.constraints.compliant(&q) || robot.collides(&q) {
+                mon.inconclusive("with_shape:first-answer:singular-or-illegal-previous");
+            } else {
+                match sols.first() {
+                    Some(s) if (0..upto).all(|j| (s[j] - prev[j]).abs() <= 1e-6) => {
+                        mon.held();
+                        mon.count("with_shape.previous_came_back_first");
+                    }
+                    _ => mon.violation(&format!("with-shape:previous-not-first:{}", e.name()), "previous joints realise the pose, are free and legal, but are not the first answer", detail("first", json!({"answers": sols.iter().map(|s| jf(s)).collect::<Vec<_>>()}))),
+                }
+            }
+        }
     }
 }
 
